@@ -413,6 +413,12 @@ def run_interfaces(rec, topo, x0, m, M, kind):
 
 
 def _weights(smp):
+    'quadrature weights per point of a sample (reference-element weights; no geometry involved)'
+    cls = type(smp).__name__
+    if cls == '_Mul':
+        return (_weights(smp._sample1)[:, None] * _weights(smp._sample2)[None, :]).ravel()
+    if cls == '_Add':
+        return numpy.concatenate([_weights(smp._sample1), _weights(smp._sample2)])
     w = numpy.empty(smp.npoints)
     for ielem, ind in enumerate(smp.index):
         w[ind] = numpy.asarray(smp.points[ielem].weights)
